@@ -214,6 +214,18 @@ def vecAutomorphismIntoW (w : Int → Int) (g : Int) (n : Nat) (res0 a : Col) : 
 /-- `vec_znx_automorphism_assign` (odd `g`; `tmp` is fully overwritten then copied back) -/
 def vecAutomorphismAssignW (w : Int → Int) (g : Int) (res : Col) : Col := res.map (znxAutomorphismW w g)
 
+/-- `vec_znx_automorphism_assign(p, res, res_col, scratch)` with the content `tmp0` of the scratch
+polynomial made explicit: per limb `znx_automorphism(p, tmp, res_j)` then `res_j ← tmp`; `tmp` is not
+re-initialised, so limb `j+1` starts from the output of limb `j`.  For an odd `g` every coefficient
+of `tmp` is overwritten and this is `vecAutomorphismAssignW`; for an even (inadmissible) `g` the
+coefficients the scatter loop does not hit come from the scratch arena (limb 0) or from the previous
+limb's result.  Returns the new column and the final content of `tmp`.  (Also the FFT64
+`vec_znx_big_automorphism_assign`, which reinterprets the buffer.) -/
+def vecAutomorphismAssignScr (w : Int → Int) (g : Int) (tmp0 : Poly) (res : Col) : Col × Poly :=
+  res.foldl (fun (acc : Col × Poly) rj =>
+    let t := znxAutomorphismIntoW w g acc.2 rj
+    (acc.1 ++ [t], t)) ([], tmp0)
+
 /-- `vec_znx_switch_ring`: `vec_znx_copy` when the degrees agree, else limb-wise `znx_switch_ring` on
 `min` limbs and zero fill (`n` = degree of `res`) -/
 def vecSwitchRing (n resSize : Nat) (a : Col) : Col :=
